@@ -995,14 +995,14 @@ func oracleC14(s *Sim) {
 				v.fail("C14", "renderer-given-a-done-context", "the error renderer was given a request context that is done although the client never cancelled the request")
 			}
 			gs := raw.Flags["grpc-status"]
-			if h.Class == "status" && !strings.HasPrefix(gs, fmt.Sprintf("%d:", h.Code)) && uint32(h.Code) < 1<<31 && h.Code != 0 {
+			if h.Class == "status" && !strings.HasPrefix(gs, fmt.Sprintf("%d:", h.Code)) && !strings.HasPrefix(gs, fmt.Sprintf("%d:", uint32(h.Code))) && h.Code != 0 {
 				v.fail("C14", "grpc-status-header-wrong", "handler returned code %d, X-GRPC-Status is %q", h.Code, gs)
 			}
 		}
 		// the caller recovers exactly the original code
 		if v.invoke != nil && v.invoke.RSeq != 0 && !v.disturbedBefore(v.invoke.RSeq) {
 			got, _ := v.invoke.Err.ViaConvert()
-			if h.Class == "status" && uint32(h.Code) < 1<<31 && h.Code != 0 && got != code {
+			if h.Class == "status" && h.Code != 0 && got != code {
 				v.fail("C14", fmt.Sprintf("caller-code-differs|%s|renderer-%d", code, s.prog.Cfg.Renderer), "handler returned %s, caller got %s", code, v.invoke.Err)
 			}
 			if h.Class == "nil" && !v.invoke.Err.IsNil() {
